@@ -138,8 +138,10 @@ def k_engine(params):
                 if abs(dt - 1e-2) < 1e-12:
                     ref_rows = _rows(r)
                     # symplectic: the error is governed by the omega heuristic of the extended-phase-space scheme (it does not shrink with dt; see C16), so only its size is bounded
-                    if e > (1e-5 if method == "fixed" else 1e-3):
-                        V("energy_level", "max |H_cm - h0| = %.3e over %d map points at dt=1e-2 [%s]" % (e, len(st), tag), e, 1e-6)
+                    # fixed step: absolute; symplectic: 1% of the energy above the libration point (the size of the error grows with the energy)
+                    e_tol = 1e-5 if method == "fixed" else max(1e-3, 1e-2 * abs(h0))
+                    if e > e_tol:
+                        V("energy_level", "max |H_cm - h0| = %.3e over %d map points at dt=1e-2, tolerance %.1e [%s]" % (e, len(st), e_tol, tag), e, e_tol)
                     # worker-count independence
                     for nw in params["workers"]:
                         r2 = _compute(cm, h0, section, method, order, dt, n_iter, params["n_seeds"], nw, strategy, seed_axis)
@@ -206,6 +208,18 @@ def _ref_returns(fpy, seed4, section, tmax, nmax=3):
     return out
 
 
+def _local_K(fpy, sref, section):
+    """K = |g''/g'| |y'|_inf / 8 at a return of the reference flow (g = section coordinate along the flow)"""
+    comp = {"q2": 1, "p2": 4, "q3": 2, "p3": 5}[section]
+    y = np.array([0.0, sref[0], sref[2], 0.0, sref[1], sref[3]])
+    f = np.asarray(fpy(0.0, y), dtype=float)
+    eps = 1e-5
+    ydd = (np.asarray(fpy(0.0, y + eps * f), dtype=float) - np.asarray(fpy(0.0, y - eps * f), dtype=float)) / (2 * eps)
+    if abs(f[comp]) < 1e-12:
+        return float("inf")
+    return float(abs(ydd[comp] / f[comp]) * np.max(np.abs(f)) / 8.0)
+
+
 def k_returns(params):
     from engine import hamref
     from hiten.algorithms.poincare.centermanifold.backend import _CenterManifoldBackend
@@ -229,6 +243,7 @@ def k_returns(params):
     n = 0
     nontriv = 0
     errs = {}
+    Ks = {}
     refs = [_ref_returns(fpy, s, section, 40.0, nmax=1 if section in ("q2", "q3") else 2) for s in seeds]
     be = _CenterManifoldBackend()
     for dt in params["dts"]:
@@ -255,6 +270,7 @@ def k_returns(params):
             tc, sref = cand[0], cand[1]
             e = float(np.max(np.abs(s_ret - sref)))
             errs.setdefault(i, []).append(e)
+            Ks[i] = max(Ks.get(i, 0.0), _local_K(fpy, sref, section))
             if abs(t_ret - tc) > 50 * dt * dt + 1e-6 + (5e-3 * tc if method == "symplectic" else 0.0):
                 V("not_first_return", "returned point of seed %s has time %.6f, the first admissible returns of the reference flow are at %s (dt=%g) [%s]" % (seeds[i].tolist(), t_ret, [round(c[0], 6) for c in refs[i]], dt, tag0), t_ret, tc)
     for i, el in errs.items():
@@ -263,11 +279,14 @@ def k_returns(params):
             if el[-1] > tol_fin:
                 V("position_error", "returned point of seed %s differs from the reference first return by %.3e at dt=%g (ladder %s) [%s]" % (seeds[i].tolist(), el[-1], params["dts"][-1], ["%.2e" % e for e in el], tag0), el[-1], tol_fin)
             if method == "fixed":
-                # second order in dt with a constant that depends on where in a step the crossing falls (error ~ dt^2 s(1-s) |q''/q'| |y'|): explicit bound per rung
+                # the crossing time comes from linear interpolation of the section function g inside the step: time error <= dt^2/8 |g''/g'|,
+                # position error <= that times |y'|.  The constant K = |g''/g'| |y'| / 8 is evaluated on the reference flow at the return
+                # (it reaches 0.13 for the widest seeds at energy 0.6); C = max(0.1, 1.5 K)
+                C = max(0.1, 1.5 * Ks.get(i, 0.0))
                 for dt_k, e_k in zip(params["dts"], el):
-                    if e_k > 0.1 * dt_k * dt_k + 1e-9:
-                        V("position_bound", "returned point of seed %s differs from the reference return by %.3e at dt=%g, more than the second-order bound 0.1*dt^2 = %.1e (ladder %s) [%s]" % (
-                            seeds[i].tolist(), e_k, dt_k, 0.1 * dt_k * dt_k, ["%.2e" % e for e in el], tag0), e_k, 0.1 * dt_k * dt_k)
+                    if e_k > C * dt_k * dt_k + 1e-9:
+                        V("position_bound", "returned point of seed %s differs from the reference return by %.3e at dt=%g, more than the second-order bound %.3g*dt^2 = %.1e (ladder %s) [%s]" % (
+                            seeds[i].tolist(), e_k, dt_k, C, C * dt_k * dt_k, ["%.2e" % e for e in el], tag0), e_k, C * dt_k * dt_k)
                         break
     return res(evals=n, nontrivial=nontriv, viol=list(viol.values()), stats={"returns_checked": nontriv}, sample={"tag": tag0, "seeds": len(seeds), "returns_checked": nontriv,
                                                                                                                  "first_error_ladder": list(errs.values())[0] if errs else None})
